@@ -29,7 +29,9 @@ var c04akis = []int{akiDefault, akiAbsent, akiIssuerSer, akiBoth, akiForeignKey,
 var c04paths = []string{"first-load", "provision-url", "refresh"}
 var c04algs = []SigAlg{ECDSASHA256, ECDSASHA1, ECDSASHA224, ECDSASHA384, ECDSASHA512, RSASHA256, RSASHA1, RSASHA224, RSASHA384, RSASHA512, RSAPSSSHA256, ED25519, MD5RSA}
 
-func c04matrix() (n int) { return len(c04signers)*len(c04akis)*len(c04paths) + len(c04algs)*len(c04paths) }
+func c04matrix() (n int) {
+	return len(c04signers)*len(c04akis)*len(c04paths) + len(c04algs)*len(c04paths)
+}
 
 const c04bitsUpper = 3200
 
